@@ -169,6 +169,47 @@ def enc_case(case):
     return got, (override, http, exp_explicit, parent)
 
 
+def encU_case(case):
+    """('encU', override, top http, top explicit kind, http, explicit kind): the TOP sheet is loaded with parseUrl - its
+    encoding comes from the argument, the HTTP charset, a BOM / @charset rule or the default - and imports a.css"""
+    cp = _cp()
+    _, override, thttp, tex, http, ex = case
+    top, te = content_of(tex, '@import "a.css"; t { top: 0 }')
+    content, e = content_of(ex, 'i { top: 1px }')
+
+    def fetcher(url):
+        return (thttp, top) if url.endswith('s.css') else (http, content)
+    kw = {'encoding': override} if override else {}
+    sheet = cp.CSSParser(fetcher=fetcher).parseUrl('http://h/s.css', **kw)
+    imp = [r for r in sheet.cssRules if r.type == r.IMPORT_RULE][0]
+    return (sheet.encoding, imp.styleSheet.encoding), (override, thttp, te, http, e)
+
+
+def encU_oracle(case):
+    (gtop, got), (override, thttp, te, http, e) = encU_case(case)
+    etop = enc_expected(override, thttp, te, None)
+    exp = enc_expected(override, http, e, etop if (override or thttp or te) else None)
+    if norm_enc(gtop) != norm_enc(etop):
+        return 'parseUrl: top sheet reports %r; override=%r http=%r content=%r give %r' % (gtop, override, thttp, te, etop)
+    if not got or norm_enc(got) != norm_enc(exp):
+        return ('parseUrl: imported sheet decoded as %r; top sheet %r (override=%r http=%r content=%r), import http=%r content=%r: '
+                'the documented priority gives %r' % (got, etop, override, thttp, te, http, e, exp))
+    return ''
+
+
+def encU_line(case):
+    # the model's choice for the import, with the top sheet's resolved encoding as the parent
+    _, override, thttp, tex, http, ex = case
+    te = {'charset': 'latin-1', 'bom': 'utf-8', None: None}[tex]
+    parent = enc_expected(None, thttp, te, None) if (thttp or te) else None
+    return enc_line(('enc', override, http, ex, parent))
+
+
+def encU_py(case):
+    (_, got), _ = encU_case(case)
+    return str(ENC_ID.get(norm_enc(got), 0)) if got else '0'
+
+
 def enc_expected(override, http, explicit, parent):
     for v in (override, http, explicit, parent):
         if v:
@@ -462,6 +503,8 @@ def oracle(case, _e=None):
         return enc_oracle(case)
     if k == 'enc2':
         return enc2_oracle(case)
+    if k == 'encU':
+        return encU_oracle(case)
     if k == 'url':
         return url_oracle(case)
     if k == 'flat':
@@ -510,6 +553,17 @@ def gen_cases(tier, seed):
                             ecases.append(('enc2', ov, http1, ex1, parent, http2, ex2))
                             if ex1 == 'charset':
                                 ecases.append(('enc2', ov, http1, ex1, parent, http2, ex2, True))
+    # the top sheet loaded with parseUrl (its own encoding from the argument / HTTP / BOM / @charset / default)
+    for ov in [None, 'latin-1']:
+        for thttp in [None, 'latin-1', 'cp1252', 'utf-8']:
+            for tex in [None, 'charset', 'bom']:
+                for http in [None, 'cp1252']:
+                    for ex in [None, 'charset', 'bom']:
+                        if tex == 'bom' and (ov or thttp):
+                            # a label with a BOM: the mark stays in the text (or is garbled) and the first rule is lost -
+                            # nothing to import; the BOM is for sheets without a label
+                            continue
+                        ecases.append(('encU', ov, thttp, tex, http, ex))
     fcases = []
     for n in (1, 2, 3):
         for combo in itertools.product([('all', True), ('all', False), ('print', True), ('print', False), ('tv, screen', True)], repeat=n):
@@ -525,8 +579,8 @@ def run(tier, seed):
     lcases, ecases, fcases, dist = gen_cases(tier, seed)
     ucases = url_cases(tier, seed)
     res = corr.run('c20o', lcases + fcases, lambda c: 'numval -', lambda c: '~', oracle, chunk=150)
-    resE = corr.run('c20e', ecases, lambda c: enc_line(c) if c[0] == 'enc' else enc2_line(c),
-                    lambda c: enc_py(c) if c[0] == 'enc' else enc2_py(c), oracle, chunk=40)
+    resE = corr.run('c20e', ecases, lambda c: {'enc': enc_line, 'enc2': enc2_line, 'encU': encU_line}[c[0]](c),
+                    lambda c: {'enc': enc_py, 'enc2': enc2_py, 'encU': encU_py}[c[0]](c), oracle, chunk=40)
     resU = corr.run('c20u', ucases, url_line, url_py, oracle, chunk=400)
     rcases = [c for c in ucases if '//' not in c[1] and '//' not in c[2]]
     resR = corr.run('c20r', rcases, rfc_line, rfc_py, None, chunk=400)
@@ -547,6 +601,8 @@ def run(tier, seed):
             resV['n_mismatch'], c, line[:200], e[:200], g[:200]))
     for case, why in resV['oracle_fail'][:6]:
         findings.add('resolve', repr(case), why)
+    for why in c20r.awkward_href_probe(seed)[:4]:
+        findings.add('resolve', why[:60], why)
     asked = c20r.default_fetcher_probe()
     if asked:
         findings.add('resolve-fetcher', 'top \'@import "sub/a.css"; x{left:0}\', sub/a.css \'@import "n.css"; a{top:0}\', sub/n.css not loadable',
